@@ -5,7 +5,7 @@ from __future__ import annotations
 import itertools
 
 from .. import automata as A
-from .. import e1, impl, linelang, refmodel
+from .. import blocks, e1, impl, linelang, refmodel
 from ..chartgen import mk
 from ..linelang import BL
 
@@ -54,7 +54,8 @@ def plan(tier, seed):
     N = 10**7 if tier == "quick" else 5 * 10**7
     shards = [("B", lo, min(N, lo + 10 * PACK - 1)) for lo in range(1, N + 1, 10 * PACK)]
     shards += [("automata", 5 if tier == "quick" else 6), ("beyond",), ("TS", 0), ("TS", 1), ("A",), ("ticks",), ("seq", "TS"), ("seq", "A"), ("seq", "B")]
-    return dict(shards=shards, bounds=dict(B_all_up_to=N, TS_upper="0..64 + 10^k-1", TS_exponent="absent, 0..16", tick_digits="<= 15, leading zeros"), budget_s=900)
+    shards += [("blocks", B, part) for B in blocks.BLOCKS for part in range(4)]
+    return dict(shards=shards, bounds=dict(block_sweep="a 36-line [SyncTrack] slid character by character across text offsets %r" % (blocks.BLOCKS,), B_all_up_to=N, TS_upper="0..64 + 10^k-1", TS_exponent="absent, 0..16", tick_digits="<= 15, leading zeros"), budget_s=900)
 
 
 def sync_text(lines, res=1000):
@@ -160,8 +161,18 @@ def _automata(ctx, L):
             ctx.hist["witness_outside_L_must"] += 1
 
 
+BLOCK_SYNC = ["0 = TS 4", "0 = B 120000"] + [("%d = B %d" % (96 * i, 60000 + 1118 * i), "%d = TS %d %d" % (96 * i, 1 + i % 9, i % 4), "%d = A %d" % (96 * i, 250000 * i + i))[i % 3] for i in range(1, 35)]
+
+
+def _block_text(pad):
+    return mk(res=192, song_extra=['Name = "%s"' % ("x" * pad)], sync=BLOCK_SYNC, events=['0 = E "section a"'], tracks={"ExpertSingle": ["0 = N 0 0", "3000 = N 1 5"]})
+
+
 def run_shard(shard, ctx):
     kind = shard[0]
+    if kind == "blocks":
+        blocks.sweep(ctx, "sync-line-at-block-boundary", _block_text, "SyncTrack", blocks=(shard[1],), part=shard[2], parts=4, vias=("file",) if shard[1] > 8192 else ("file", "path"))
+        return
     if kind == "automata":
         _automata(ctx, shard[1])
     elif kind == "B":
@@ -221,4 +232,6 @@ def run_shard(shard, ctx):
 
 
 def replay(case):
+    if "shape" in case:
+        return e1.replay_model_case(case, "sync-line-at-block-boundary")
     return e1.replay_text_case(case, probe, "sync-line", PROBE_SRC)
